@@ -52,6 +52,7 @@ def check_value(fcp: Any, s: Any, name: str, v: Dict[str, Any], ref: bytes, know
         dec = serde.decode(fcp, name, bytearray(ref))
     except Exception as e:
         return f"(b) decode(canonical {ref.hex()}) raised {type(e).__name__}: {e}"
+    v = CC.float_norm(s, CC.M.StructRef(name), v)
     if not refcodec.same_value(dec, v):
         if "PY-SIGNED-MIN" in known and CC.matches_signed_min_finding(s, name, v, dec):
             if rec is not None:
